@@ -32,7 +32,7 @@ SHARD_TIMEOUT = {"quick": 1800, "thorough": 7200}
 
 def plan(tier, seed):
     n = 16 if tier == "quick" else 48
-    per = 2 if tier == "quick" else 6
+    per = 2 if tier == "quick" else 14
     return [{"kind": "hist", "sub": i, "cases": per} for i in range(n)]
 
 
